@@ -56,7 +56,7 @@ CLAIMED = {
          "DESIGN.md 4 C11"),
  "C12": ("round-trip property over a constructed grammar of coherent, textually unambiguous patterns; inputs are the crate's own formatted output",
          "500k (quick) / 10M (thorough) (value, pattern) cases; parse(format(v,p),p) must succeed, re-format to the same string, default absent groups, and - when the pattern carries full date, time and zone - return the same instant and offset",
-         "the pattern grammar encodes the property's 'unambiguous in text' precondition (separator after variable-width fields, no narrow names, zone wide enough, derived fields only next to their determining fields); anything outside is skipped and counted, not judged",
+         "the pattern grammar encodes the property's 'unambiguous in text' precondition (separator after variable-width fields, no narrow names, zone wide enough, derived date fields only next to a full date, 12-hour fields only with a period, `b` only with hour, minute and second); time fields may be present independently of each other (the parsed time keeps the present ones and is zero in the absent ones); anything outside is skipped and counted, not judged",
          "DESIGN.md 4 C12"),
  "C13": ("grammar-based generation from the RFC 3339 ABNF + field mutants against an independent hand-written RFC 3339 reader/writer",
          "500k + 500k (quick) / 10M + 10M (thorough): write side over all instants of years 0001-9999 x whole-minute offsets x 5 precisions, read side over ABNF strings with 0..40 fraction digits plus fraction lengths at 2^k and 2^k+-1 up to 65 537 digits and 11 kinds of out-of-range field mutants, through parse_rfc3339 and FromStr",
